@@ -49,6 +49,18 @@ CHECKS = {
    tech='exhaustive enumeration of small expression trees x spellings plus Hypothesis random trees; truth-table oracle over all 2^n sense assignments',
    text='Every expression tree with <= 3 leaves (quick) / <= 4 leaves (thorough) over a small leaf alphabet is enumerated in several spellings, and larger random trees are generated; the truth table of the generator tree must equal that of the AST returned by get_ast on the geometry extracted by cellcard.split, and that of the tree after pot_complement (which must be complement-free).',
    note='Trusted: MCNP operator semantics; the sub-domain <= N leaves is enumerated completely, the rest is sampled.'),
+ 'C12': dict(cat='exploration', ref='5/C12',
+   tech='property-based testing: generated importance specifications (cell cards, data cards with shorthand, mixes) against an independent shorthand expander',
+   text='Decks of 2-10 slab cells with importances from cell-card keywords, IMP:x data cards with nR/nM/nI shorthand, or a mix; the converted VOLU set must equal the non-zero-importance cells and the NOTE line must list exactly the zero-importance cells.',
+   note='Trusted: importance rule as restated in the property; harness-side shorthand expansion.'),
+ 'C13': dict(cat='exploration', ref='5/C13',
+   tech='metamorphic property-based testing across all flag combinations + unit-level property on remove_duplicate_surfaces',
+   text='Each generated deck (with duplicated surfaces) is converted under all 8 flag combinations with drawn inline scores; every decided point must read the same (provenance, composition) as in the reference output. Generated SurfaceT4 dictionaries check that de-duplication merges only identical surfaces.',
+   note='Trusted: T4 evaluator; the verdict compares converter outputs with each other only.'),
+ 'C14': dict(cat='exploration', ref='5/C14',
+   tech='metamorphic property-based testing: renderer-applied meaning-preserving rewrites (case, blanks/tabs, continuations, comments, message block, number spellings, shorthand) vs canonical rendering',
+   text='A base deck is rendered canonically and under a drawn set of rewrites that MCNP treats as equivalent; both are converted and the outputs must have identical geometry and boundary conditions and numerically identical volume-composition associations.',
+   note='Trusted: the renderer applies only rewrites named by the statement; composition names may differ, contents may not.'),
 }
 
 PENDING = {}
